@@ -450,9 +450,10 @@ def check_render(e, info, mode, case_class):
                         continue
                     if num in rows:
                         continue
+                    # the line as it is in the file; style tags inside it may be left out ("markup aside")
                     want = strip_markup(src[num - 1]).rstrip()
-                    if text.rstrip() != want:
-                        fails.append(("snippet|line-not-verbatim|" + _line_class(src[num - 1]), "line %d shown as %r, source (markup aside) is %r (%s)" % (num, text[:80], want[:80], case_class)))
+                    if text.rstrip() not in (src[num - 1].rstrip(), want):
+                        fails.append(("snippet|line-not-verbatim|" + _line_class(src[num - 1]), "line %d shown as %r, source is %r (%s)" % (num, text[:80], src[num - 1][:80], case_class)))
                         break
 
     # ---- every numbered snippet of the page (frames of a debug trace too): consecutive numbers, marker on its line
@@ -551,10 +552,14 @@ def check_highlighter_text(src, path, known_markup=False):
     rows = multi_line_rows(lines)
     if rows is not None:
         for i in range(n):
-            if (i + 1) in rows or (MARKUPISH.search(lines[i]) and not known_markup):
+            if (i + 1) in rows:
                 continue
-            shown = pf.remove_format(hl[i])
-            if shown.rstrip() != (strip_markup(lines[i]) if known_markup else lines[i]).rstrip():
+            try:
+                shown = pf.remove_format(hl[i])
+            except ValueError as e:
+                fails.append(("highlighter|line-is-not-valid-markup|" + _line_class(lines[i]), "%s:%d highlighted as %r, which cannot be formatted: %r" % (path, i + 1, hl[i][:80], e)))
+                break
+            if shown.rstrip() not in (lines[i].rstrip(), strip_markup(lines[i]).rstrip()):
                 fails.append(("highlighter|line-not-verbatim|" + _line_class(lines[i]), "%s:%d highlighted as %r, source %r" % (path, i + 1, shown[:80], lines[i][:80])))
                 break
         if len(hl) == n + 1 and pf.remove_format(hl[n]).strip():
